@@ -147,12 +147,21 @@ func TryPack(msg *dns.Msg, consume func([]byte) error) (handled bool, err error)
 	// touched.
 	sizeProbe := *msg
 	sizeProbe.Compress = false
-	if sizeProbe.Len() > packBufferSize {
+	size := sizeProbe.Len()
+	if size > packBufferSize {
 		return false, nil
 	}
 
 	state := packStatePool.Get().(*packState)
 	defer state.release()
+	// The library packs into a zeroed buffer and some of its field packers
+	// rely on that: an A record holding a 16-byte address that is not
+	// IPv4-mapped advances the offset by four octets without writing them
+	// (likewise L32 and the IPv4 gateway forms of IPSECKEY and AMTRELAY).
+	// In a pooled buffer those octets would be whatever the previous message
+	// left there. Clearing the span this message can occupy keeps the bytes
+	// the library's, and nothing of an earlier message inside the payload.
+	clear(state.buf[:size])
 
 	compress := msg.Compress && msgIsCompressible(msg)
 	var compression map[string]int
